@@ -81,6 +81,8 @@ fn main() {
 		"C15" => props::c15::run(&mut ctx),
 		"C14" => props::c14::run(&mut ctx),
 		#[cfg(not(feature = "nocrypto"))]
+		"C06" => props::c06::run(&mut ctx),
+		#[cfg(not(feature = "nocrypto"))]
 		"C03" | "C17" => props::import::run(&mut ctx, &prop),
 		"C02" | "C04" | "C05" | "C07" | "C08" | "C09" | "C10" => props::suite::run(&mut ctx, &prop),
 		p => panic!("unknown property {}", p),
